@@ -104,6 +104,16 @@ def frames_of(out):
     return fr
 
 
+def frames_full(out):
+    """(raw, identity, attribute digest, payload digest) per delivered pair"""
+    fr = []
+    for t in out.split():
+        if t.startswith("F:"):
+            parts = t.split(":")
+            fr.append((impl.unhx(parts[1]), parts[2], parts[3] if len(parts) > 3 else "-", parts[4] if len(parts) > 4 else "-"))
+    return fr
+
+
 def ident_of_payload(p):
     num = p[0] << 4 | p[1] >> 4
     if num == 4076:
@@ -114,7 +124,7 @@ def ident_of_payload(p):
 def o_c01(out, a, ctx):
     data = impl.unhx(a["data"])
     pos = 0
-    for raw, ident in frames_of(out):
+    for raw, ident, _dig, pdig in frames_full(out):
         if not wellformed(raw):
             return "delivered raw frame is not a well-formed RTCM3 frame: " + raw.hex()[:80]
         i = data.find(raw, pos)
@@ -125,6 +135,8 @@ def o_c01(out, a, ctx):
             p = raw[3:-3]
             if len(p) < 2 or ident != ident_of_payload(p):
                 return "parsed identity %s is not the number carried by the slice" % ident
+            if pdig != impl.attr_digest(p.hex()):
+                return "the parsed message's payload is not the payload carried by the slice " + raw.hex()[:60]
     return None
 
 
@@ -677,7 +689,7 @@ def mixed_stream(ctx, nitems=None, kinds=None, adversarial=False):
     data = b""
     frames = []
     desc = []
-    kinds = kinds or ["rtcm", "rtcm", "rtcm", "nmea", "ubx", "noise", "zero", "one", "unk", "max", "lensp"]
+    kinds = kinds or ["rtcm", "rtcm", "rtcm", "nmea", "ubx", "noise", "zero", "one", "unk", "max", "lensp", "twin"]
     for _ in range(nitems):
         k = rng.choice(kinds)
         if k == "rtcm":
@@ -694,6 +706,17 @@ def mixed_stream(ctx, nitems=None, kinds=None, adversarial=False):
             f = frame(gens.unknown_payload(rng, ctx.t, rng.choice([0xD3, 0x24, 0xB5, 0x62, 10, 13, 255, 256, 257, 512, 768, 1022])))
             data += f
             frames.append(hx(f))
+        elif k == "twin":
+            # two different valid frames of one length with identical checksum bytes, back to back or apart
+            f = frame(gens.unknown_payload(rng, ctx.t, rng.choice([7, 8, 19, 40, 300])))
+            tw = gens.crc_twin(rng, f)
+            data += f
+            frames.append(hx(f))
+            if tw is not None:
+                if rng.random() < 0.4:
+                    data += gens.gen_nmea(rng, ctx.t)
+                data += tw
+                frames.append(hx(tw))
         elif k == "max":
             f = frame(gens.unknown_payload(rng, ctx.t, 1023))
             data += f
@@ -717,10 +740,20 @@ def adversarial_stream(ctx):
     parts = []
     goods = []
     for _ in range(rng.randint(1, 6)):
-        k = rng.choice(["good", "good", "dmg", "trunc", "noise", "sync", "nmea", "badnmea", "ubx", "nested", "fakehdr", "zero", "resframe", "dmgcopy", "dmgcopy"])
-        if k == "dmgcopy" and not goods:
+        k = rng.choice(["good", "good", "dmg", "trunc", "noise", "sync", "nmea", "badnmea", "ubx", "nested", "fakehdr", "zero", "resframe", "dmgcopy", "dmgcopy",
+                        "twin", "crcprev"])
+        if k in ("dmgcopy", "twin", "crcprev") and not goods:
             k = "good"
-        if k == "good":
+        if k == "twin":
+            # a different valid frame with the same length and the same checksum bytes as an earlier one
+            tw = gens.crc_twin(rng, rng.choice(goods))
+            parts.append(tw if tw is not None else good_frames(ctx, 1)[0])
+            goods.append(parts[-1])
+        elif k == "crcprev":
+            # a frame whose (wrong) checksum bytes are those of the frame delivered before it
+            f = good_frames(ctx, 1)[0]
+            parts.append(f[:-3] + goods[-1][-3:])
+        elif k == "good":
             parts.append(good_frames(ctx, 1)[0])
             goods.append(parts[-1])
         elif k == "dmgcopy":
@@ -998,6 +1031,15 @@ def cases_C04(ctx):
         resume = rng.random() < 0.7
         cs.append(case(reader_line(v, q, 1, True, resume, sched, data), "stream:q%d:v%d:%s" % (q, v, "faults" if sched != "-" else "clean"),
                        ("total", {"reader": True, "quit": q}), {"handler": rng.random() < 0.5}))
+    # long streams (more frames than any plausible look-back window) that start with two different frames sharing
+    # their checksum bytes
+    for _ in range(ctx.n(4, 30)):
+        f = frame(gens.unknown_payload(rng, ctx.t, rng.choice([8, 19, 40])))
+        tw = gens.crc_twin(rng, f) or f
+        fr = [f] + good_frames(ctx, rng.randint(0, 3)) + [tw] + good_frames(ctx, rng.randint(34, 70))
+        q = rng.choice([0, 1, 2])
+        cs.append(case(reader_line(1, q, 1, True, True, "-", b"".join(fr)), "stream:long:q%d" % q,
+                       ("total", {"reader": True, "quit": q}), {"handler": True}))
     # socket-backed streams, plain and with chunked transfer decoding, over well-formed and *malformed* chunked
     # bodies: size lines that are not hexadecimal, negative, signed, prefixed, underscored, blank, enormous (more
     # digits than a machine word holds), missing CRLFs, data after the terminating chunk
@@ -1373,7 +1415,11 @@ def cases_C17(ctx):
                 f = good_frames(ctx, 1)[0] if k != "big" else frame(gens.unknown_payload(rng, ctx.t, rng.choice([509, 510, 511, 1021, 1022, 1023, 253, 254, 255, 256])))
                 fixed.append(f)
                 if k == "badcrc":
-                    f = f[:-3] + bytes((f[-3 + j] ^ rng.randint(1, 255)) if j == rng.randrange(3) or True else f[-3 + j] for j in range(3))
+                    prev = [x for x in parts if x[:1] == b"\xd3" and x[-3:] != f[-3:]]
+                    if prev and rng.random() < 0.4:
+                        f = f[:-3] + prev[-1][-3:]       # the wrong checksum is the checksum of the frame before
+                    else:
+                        f = f[:-3] + bytes(f[-3 + j] ^ rng.randint(1, 255) for j in range(3))
                     bad.append(hx(f))
                 parts.append(f)
             elif k == "nmea":
@@ -1496,6 +1542,18 @@ def cases_C19(ctx):
                 seen.add(an)
                 cs.append(case("names " + an.encode().hex(), "3dig:lvl%d" % len(idx),
                                ("names", {"attr": an, "field": nm, "idx": idx, "desc": fields[nm]["desc"]})))
+    # names as the *parser* produces them for very large groups: MSM messages handed to the constructor directly
+    # (beyond what a frame can carry) with several hundred cells - three- and four-digit indices
+    msm = [e for tn, e in ctx.entries if tn == "msm"]
+    for nsat, nsig in ((33, 16), (40, 13), (64, 16))[:ctx.n(2, 3)]:
+        e = ctx.rng.choice([x for x in msm if x["key"][3] in "12"])
+        ov = {"DF394": ((1 << nsat) - 1) << (64 - nsat), "DF395": ((1 << nsig) - 1) << (32 - nsig), "DF396": (1 << (nsat * nsig)) - 1}
+        try:
+            r = ctx.b.build(e, "small", "random", "random", overrides=ov)
+        except gens.BuildError:
+            continue
+        cs.append(case("msg 1 " + hx(r["payload"]), "bigmsm:%d" % (nsat * nsig),
+                       ("attrs_expected", {"expected": expected_attr_str(ctx.b.expected(1)), "ident": e["key"]})))
     # names the helpers merely have to survive (correspondence only)
     for an in ["", "_", "DF", "DF001_", "DF001__1", "X_1_2_3", "DF406_1x", "DF406_-1", "DF406_ 7", "NSat", "_NHarmCoeffC", "DF406_+3", "é_01"]:
         try:
@@ -1568,7 +1626,7 @@ def chunked_body(ctx, enc, nchunks=None, maxlen=12):
     plain, body, table = b"", b"", []
     for _ in range(n):
         d = bytes(rng.choice([13, 10, 48, 49, 65, 97, 0xd3, rng.randrange(256)]) for _ in range(rng.randint(1, maxlen)))
-        c = gens.compress_for(enc, d)
+        c = gens.compress_for(enc, d, rng)
         if enc & ~1:
             table.append((c, impl.real_dec(enc, c)))
         plain += d
